@@ -108,7 +108,7 @@ def shard(ctx, shard_no, nshards, n_random, stride):
     with ctx.timed('random'):
         core.run_hypothesis(ctx, 'random', from_tape(lambda ch: sem.random_bool_case(ch, kinds=('condition', 'predicate', 'expression'))), body, n_random)
     with ctx.timed('small'):
-        for name, inp in sem.small_cases(ctx.seed, stride, shard_no, nshards):
+        for name, inp in sem.small_cases(ctx.seed, stride, shard_no, nshards, quant_stride=max(1, stride // 8)):
             for alias in ('A', 'Zz'):
                 case = dict(inp, alias=alias)
                 try:
